@@ -1,5 +1,6 @@
 """Worker process: runs the cases of one shard against the real code with the monitors on."""
 import json
+import os
 import sys
 import time
 import traceback
@@ -18,12 +19,36 @@ def main(argv):
     cov = coverage.start(env.REPO) if shard.get("coverage", True) else False
     if hasattr(mod, "setup"):
         mod.setup(tier)
+    import signal
+
+    class CaseTimeout(Exception):
+        pass
+
+    def on_alarm(signum, frame):
+        raise CaseTimeout()
+    # a generous wall-clock limit per case: the ring search of the package needs exponential time on densely
+    # bonded hetero atoms; a case that runs into the limit is neither held nor violated (it is counted, and the
+    # check stays conclusive as long as such cases are rare)
+    default = 300 if tier == "quick" else 900
+    limit = int(getattr(mod, "CASE_TIME_LIMIT", {}).get(tier, default)) if isinstance(getattr(mod, "CASE_TIME_LIMIT", None), dict) else default
+    signal.signal(signal.SIGALRM, on_alarm)
     with open(out_path, "w") as out:
         for case in shard["cases"]:
             t0 = time.time()
             try:
+                signal.alarm(limit)
                 res = mod.run_case(case, tier)
+                signal.alarm(0)
+            except CaseTimeout:
+                res = {"violations": [], "nontrivial": False, "digest": "timeout:%s" % case.get("id"), "counts": {"cases_over_the_time_limit": 1},
+                       "classes": ["case-over-the-time-limit"], "sample": {"case": case, "time_limit_s": limit}, "evals": 0,
+                       "inconclusive": "the case ran into the %d s wall-clock limit" % limit}
+                try:
+                    os.chdir(os.path.dirname(os.path.abspath(out_path)))
+                except OSError:
+                    pass
             except BaseException as e:  # harness failure: inconclusive, never a violation
+                signal.alarm(0)
                 if isinstance(e, KeyboardInterrupt):
                     raise
                 res = {"harness_error": traceback.format_exc()}
